@@ -190,7 +190,21 @@ def exec_random_graph(trace, ctx):
             drawn["i"] = int(value)
 
     with RandomSeam(ctx, trace["np_seed"], listener=on_draw), patched(T, "find_atom_random_displ", mon_displ):
+        kept = []
         for rep in range(8):
+            if rng.random() < 0.15 and n >= 3:
+                # a REFUSED call in between: a bond table that lacks the entry of an atom the walk will reach (or names an
+                # atom that does not exist); whatever it raises, the next valid call must be unaffected
+                broken = {i: list(l) for i, l in table.items()}
+                victim = rng.randrange(n)
+                if rng.random() < 0.5:
+                    broken.pop(victim, None)
+                else:
+                    broken.setdefault(victim, []).append((n + 3, 0.1))
+                try:
+                    move_mol_atom(pos.copy(), broken, atom_index=(victim + 1) % n, displ=np.array([0.01, 0.02, 0.03]))
+                except Exception:
+                    ctx.fault("refused_move_call")
             before = pos.copy()
             arr = pos.copy()
             explicit = rng.random() < 0.4
@@ -222,6 +236,10 @@ def exec_random_graph(trace, ctx):
                 return
             check_move(ctx, before, arr, table, moved, d, out, tree=tree)
             ctx.steps += 1
+            try:
+                kept.append((out, np.array(out, dtype=float, copy=True)))
+            except Exception:
+                pass
             if rng.random() < 0.5 and np.all(np.isfinite(out)) and tree and factor is None:
                 pos = np.array(out)         # walk on: later moves start from a moved configuration
             elif rng.random() < 0.3:
@@ -229,6 +247,10 @@ def exec_random_graph(trace, ctx):
                 factor = {(min(i, j), max(i, j)): rng.uniform(0.7, 1.3) for i, j in edges}
                 table = bonds_table(n, edges, pos, factor)
                 ctx.probe("bond_table_changed_between_moves")
+    for raw, snap_ in kept:
+        if not np.array_equal(np.array(raw, dtype=float), snap_):
+            ctx.violate("C07", "returned-array-changed-later", "an array returned by move_mol_atom changed after a later call")
+            break
     ctx.nontrivial = True
     ctx.op("random_graph", ("tree" if tree else "cyclic") + ":" + trace["table"])
     ctx.sig.append((n, len(edges)))
@@ -244,6 +266,14 @@ def exec_chi2(trace, ctx):
     sp = trace["spread"]
     fixed = np.array([[rng.uniform(-sp, sp) for _ in range(3)] for _ in range(nf)])
     mob0 = np.array([[rng.uniform(-sp, sp) for _ in range(3)] for _ in range(nm)])
+    far = np.zeros(3)
+    if trace["seed"] % 7 == 3:
+        # both sets far from the origin (separations stay what they were): reformulations that subtract large squares lose
+        # the small distances the measure is made of
+        far = np.array([rng.choice([-1, 1]) * 10 ** rng.uniform(2.5, 4) for _ in range(3)])
+        fixed = fixed + far
+        mob0 = mob0 + far
+        ctx.probe("sets_far_from_origin")
     restr = [tuple(r) for r in trace["restraints"]]
     form = trace["seed"] % 5
     if form == 1:
@@ -277,7 +307,7 @@ def exec_chi2(trace, ctx):
             mob = work.copy()
             mob[rng.randrange(nm)] += np.array(gen.rvec(rng, sp * 0.3))      # a single-atom move of the previous argument
         else:
-            mob = np.array([[rng.uniform(-sp, sp) for _ in range(3)] for _ in range(nm)])
+            mob = np.array([[rng.uniform(-sp, sp) for _ in range(3)] for _ in range(nm)]) + far
             if rng.random() < 0.3:       # some mobile atoms exactly on top of fixed atoms (distance 0 is legal)
                 for _ in range(rng.randint(1, 3)):
                     mob[rng.randrange(nm)] = fixed[rng.randrange(nf)]
@@ -369,6 +399,7 @@ def exec_rotations(trace, ctx):
         return buf
     if reuse:
         ctx.probe("axis_buffer_reused_in_place")
+    kept = []
     for rep in range(40):
         norm = 10 ** rng.uniform(-6, 6)
         if rep % 5 == 2:
@@ -384,7 +415,9 @@ def exec_rotations(trace, ctx):
             axis = np.array(gen.unit_vec(rng)) * norm
         theta = rng.choice([rng.uniform(-20, 20), rng.uniform(-20, 20), 0.0, math.pi, -math.pi, 2 * math.pi, rng.uniform(-1e-8, 1e-8)])
         try:
-            M = np.array(rotation_matrix(arg(axis), theta), dtype=float)
+            raw = rotation_matrix(arg(axis), theta)
+            M = np.array(raw, dtype=float)
+            kept.append((raw, M.copy()))
         except Exception as e:
             ctx.violate("C17", "rotation-raised", f"rotation_matrix({axis.tolist()}, {theta}) raised {type(e).__name__}: {e}")
             return
@@ -421,6 +454,10 @@ def exec_rotations(trace, ctx):
                                                        f"(max deviation {np.max(np.abs(M @ Mb - Mab)):.3e})")
         if np.max(np.abs(Mscaled - M)) > tol or np.max(np.abs(Mlist - M)) > tol:
             ctx.violate("C17", "rotation-axis-length", f"the matrix depends on the length of the axis {axis.tolist()}")
+    for raw, snap_ in kept:
+        if not np.array_equal(np.array(raw, dtype=float), snap_):
+            ctx.violate("C17", "returned-matrix-changed-later", "a matrix returned by rotation_matrix changed after a later call")
+            break
     ctx.nontrivial = True
     ctx.op("rotations", "ok")
     ctx.sig.append(trace["seed"] % 1000)
@@ -470,6 +507,7 @@ def exec_frames(trace, ctx):
             return
         ctx.steps += 1
         ctx.counters["frame_kind:" + kind] += 1
+    mon.recheck()
     ctx.nontrivial = True
     ctx.op("frames", "ok")
     ctx.sig.append(trace["seed"] % 1000)
